@@ -23,6 +23,8 @@ from hugr import tys as ht
 from hugr.hugr.node_port import InPort, OutPort
 
 STRUCTURAL_EXT = {"arithmetic.conversions.itousize"}
+# inserted after the fact for unconnected droppable outputs; not part of the write-back
+IGNORED_EXT = {"tket.guppy.drop"}
 
 
 class TraceError(Exception):
@@ -82,7 +84,8 @@ class Tracer:
             return "structural"
         n = type(op).__name__
         if n in ("ExtOp", "Custom", "AsExtOp") or hasattr(op, "op_def"):
-            return "structural" if ext_name(op) in STRUCTURAL_EXT else "event"
+            nm = ext_name(op)
+            return "structural" if nm in STRUCTURAL_EXT else ("ignored" if nm in IGNORED_EXT else "event")
         if isinstance(op, ops.Call):
             return "event"
         if n in ("LoadFunc",):
@@ -149,11 +152,15 @@ class Tracer:
             r = [5, len(comps)]
             for i in range(len(comps)):
                 r += self.term(self.src(node, i))
-        elif isinstance(op, (ops.Const, ops.LoadConst)) or type(op).__name__ == "LoadFunc":
+        elif isinstance(op, ops.LoadConst):
+            c = h[self.src(node, 0).node].op
+            v = getattr(getattr(c, "val", None), "v", 0)
+            r = [3, v if isinstance(v, int) and 0 <= v < 1000 else 0]
+        elif isinstance(op, ops.Const) or type(op).__name__ == "LoadFunc":
             r = [3, 0]
         elif self.kind(op) == "structural" and ext_name(op) in STRUCTURAL_EXT:
-            t = self.term(self.src(node, 0))
-            r = [2, t[1]] if t[0] == 0 and t[2] == 0 else [4]
+            # itousize: the index operand of borrow/return is the wire of the index value itself
+            r = self.term(self.src(node, 0))
         elif self.kind(op) == "event":
             ev = self.ev_index[node.idx]
             r = self.expand(ty, lambda p: [1, ev, port, len(p)] + p, [])
